@@ -35,6 +35,13 @@ def oracle_c01(chk, rec):
             chk.fail("reported phenotype is not the genotype-to-phenotype image of the reported genotype", d, feats(rec, "g2p"))
         if s["shares"]:
             chk.fail("the record shares memory with the working population", d, feats(rec, "private_copy"))
+    # what a user's on_generation callback sees: the record already covers everything evaluated up to that moment
+    flatv = [sign * v for _, vals in rec.calls for v in vals]
+    for n_eval, reported in getattr(rec, "cb_obs", []):
+        if n_eval and reported != max(flatv[:n_eval]):
+            chk.fail("inside on_generation the reported best fitness is not the maximum over everything evaluated so far",
+                     {"run": T.describe(rec), "evaluated_so_far": n_eval, "reported": reported, "max_evaluated": max(flatv[:n_eval])}, feats(rec, "callback_view"))
+            break
     # the record as observed at generation k must not have been changed by later in-place updates:
     # the snapshot's deep copy at generation k equals what the optimizer recorded then (checked via
     # ids above); additionally the returned dict is a private copy
@@ -397,6 +404,28 @@ def main(prop: str, tier: str, classes=None) -> int:
                     chk.fail("get_remains_calls() differs from iters*pop_size minus the evaluations made (n_jobs > 1)",
                              {"optimizer": cls.__name__, "n_jobs": nj, **{k: v for k, v in kw.items() if k in ("iters", "pop_size")},
                               "remains": int(o.get_remains_calls()), "evaluated": evaluated}, {"optimizer": cls.__name__, "clause": "remains_parallel"})
+    if prop in ("C02", "C17"):
+        # a callback that modifies the record it was handed by get_fittest() in every generation: the run is the same run
+        for cn in ("GeneticAlgorithm", "SelfCGA", "DifferentialEvolution", "SHAGA", "SHADE", "GeneticProgramming"):
+            base_cfg = {"pop_size": 8 if cn not in T.GP else 7, "iters": 6, "objective": "onemax" if cn not in T.FLOAT else "sphere", "elitism": True,
+                        "minimization": cn in ("GeneticAlgorithm", "SHADE"), "seed": chk.seed * 100 + 91, "keep_history": True}
+            if cn == "GeneticAlgorithm":
+                base_cfg["selection"] = "proportional"
+            try:
+                ra, rb = T.record(cn, dict(base_cfg)), T.record(cn, dict(base_cfg, scribble=True))
+            except Exception as e:  # noqa
+                chk.fail("a run whose callback modifies the record handed to it raises", {"optimizer": cn, "error": repr(e)[:200]}, {"optimizer": cn, "clause": "scribble_raises"})
+                continue
+            fa = [(tuple(x["pop_g"]), tuple(x["fit"]), x["best_fit"]) for x in ra.snaps]
+            fb = [(tuple(x["pop_g"]), tuple(x["fit"]), x["best_fit"]) for x in rb.snaps]
+            ka = [[T.key_of(g) for g in x["raw_pop_g"]] for x in ra.snaps]
+            kb = [[T.key_of(g) for g in x["raw_pop_g"]] for x in rb.snaps]
+            chk.count("callback_modifies_record")
+            chk.case(("scribble", cn))
+            if ka != kb or [x[1:] for x in fa] != [x[1:] for x in fb]:
+                gen = next((i for i, (x, y) in enumerate(zip(ka, kb)) if x != y), None)
+                chk.fail("changing the object returned by get_fittest() (inside on_generation) changed the optimizer's own record / the run",
+                         {"optimizer": cn, **{k: v for k, v in base_cfg.items()}, "first_differing_generation": gen}, {"optimizer": cn, "clause": "get_private_run"})
     if prop == "C02":
         # an objective that returns NaN for some individuals once a finite record exists: numpy's argmax then points at
         # the NaN, which is not greater than the record, so the record must stay (and must never become NaN)
